@@ -78,6 +78,8 @@ func main() {
 		runC11(res)
 	case "c08":
 		runC08(res)
+	case "c02":
+		runC02(res)
 	default:
 		fmt.Fprintln(os.Stderr, "unknown mode", *mode)
 		os.Exit(2)
